@@ -125,6 +125,7 @@ type State struct {
 	files    map[string]ghostFile
 	filePos  map[int]*Term
 	fileName map[int]string
+	locks    map[string]lockTable
 }
 
 func (st *State) clone() *State {
@@ -150,6 +151,7 @@ func (st *State) clone() *State {
 	n.aux = append([]*Term(nil), st.aux...)
 	n.nfresh = st.nfresh
 	n.files, n.filePos, n.fileName = st.files, st.filePos, st.fileName
+	n.locks = st.locks
 	if st.ghost != nil {
 		n.ghost = map[string]int{}
 		for k, v := range st.ghost {
